@@ -76,6 +76,7 @@ type Exec struct {
 	noMerge bool
 	initMode bool // executing package initialisers: be lenient
 	explore bool  // goroutine tier: fork over scheduler choices
+	topQ    *workQ
 }
 
 // ---------- region exploration ----------
@@ -103,6 +104,12 @@ func (e *Exec) region(s0 *State, stop *stopCond) (parked []*State, why []string,
 				escaped = append(escaped, s)
 				break run
 			case kForks:
+				if stop == nil && e.topQ != nil && len(r.states) > 1 {
+					// top level: share the forks with the other workers
+					e.topQ.push(r.states[1:]...)
+					work = append(work, r.states[0])
+					break run
+				}
 				for i := len(r.states) - 1; i >= 0; i-- {
 					work = append(work, r.states[i])
 				}
@@ -1100,12 +1107,9 @@ func strEq(a, b StrV) *Term {
 		return False
 	}
 	if strings.HasPrefix(a.Sym.Kind, "atom:") {
-		// distinct atoms: equality is a symbolic boolean shared per pair
-		x, y := a.Sym.Kind, b.Sym.Kind
-		if x > y {
-			x, y = y, x
-		}
-		return Var("streq!"+x+"!"+y, 0)
+		// same name: same atom (checked above by Kind); different names are
+		// different strings by construction
+		return True
 	}
 	var cs []*Term
 	for i := range a.Sym.Args {
